@@ -14,7 +14,8 @@ GE = 'crates/oq3_parser/src/grammar/expressions.rs'
 GA = 'crates/oq3_parser/src/grammar/expressions/atom.rs'
 GP = 'crates/oq3_parser/src/grammar/params.rs'
 
-P = ['C01', 'C02', 'C05', 'C12']
+P = ['C01', 'C02', 'C12']
+P5 = ['C01', 'C02', 'C05', 'C12']
 PW = 'crate::parser::'
 
 
@@ -50,8 +51,130 @@ TS_CONSTS = {
 }
 
 
+def const_membership(rel, name):
+    """D10 ensures, generated mechanically from the initialiser of a TokenSet constant: it only makes
+    the constant transparent to callers (`TokenSet::new(&[..])` -> member list, `a.union(b)` -> union,
+    `= OTHER` -> same members); the initialiser itself is verified against it."""
+    import os
+    from vlib.rustsrc import RustFile
+    from vlib.unit import REPO, normalise_code
+    rf = RustFile(os.path.join(REPO, rel))
+    it = rf.find_simple_item('const', name)
+    text = normalise_code(rf.src[it['header_start']:it['end']])
+    m = re.match(r'(?:pub(?:\([^)]*\))?\s+)?const\s+\w+\s*:\s*TokenSet\s*=\s*(.*);$', text)
+    if not m:
+        return 'ensures true,'
+    init = m.group(1).strip()
+    # protect char literals like '(' so that bracket matching works
+    lits = []
+
+    def prot(mm):
+        lits.append(mm.group(0))
+        return '\x00%d\x00' % (len(lits) - 1)
+    src = re.sub(r"'(?:\\.|[^'\\])'", prot, init)
+
+    def unprot(t):
+        return re.sub(r'\x00(\d+)\x00', lambda mm: lits[int(mm.group(1))], t)
+    H = 'crate::token_set::has'
+    pos = [0]
+
+    def skip():
+        while pos[0] < len(src) and src[pos[0]].isspace():
+            pos[0] += 1
+
+    def balanced(open_ch, close_ch):
+        assert src[pos[0]] == open_ch
+        d, i = 0, pos[0]
+        while i < len(src):
+            if src[i] in '([':
+                d += 1
+            elif src[i] in ')]':
+                d -= 1
+                if d == 0:
+                    break
+            i += 1
+        inner = src[pos[0] + 1:i]
+        pos[0] = i + 1
+        return inner
+
+    def split_top(t):
+        out, d, cur = [], 0, ''
+        for ch in t:
+            if ch in '([':
+                d += 1
+            elif ch in ')]':
+                d -= 1
+            if ch == ',' and d == 0:
+                out.append(cur)
+                cur = ''
+            else:
+                cur += ch
+        if cur.strip():
+            out.append(cur)
+        return [x.strip() for x in out if x.strip()]
+
+    def primary():
+        skip()
+        if src.startswith('TokenSet::new(', pos[0]):
+            pos[0] += len('TokenSet::new')
+            inner = balanced('(', ')').strip()
+            mm = re.match(r'&\[(.*)\]$', inner, re.S)
+            if not mm:
+                raise ValueError
+            members = split_top(mm.group(1))
+            return ['(' + ' || '.join('k == %s' % unprot(x) for x in members) + ')'] if members else ['false']
+        mm = re.compile(r'[A-Za-z_][\w:]*').match(src, pos[0])
+        if not mm:
+            raise ValueError
+        pos[0] = mm.end()
+        other = mm.group(0).split('::')[-1]
+        for rel2, names in TS_CONSTS.items():
+            if other in names:
+                sub_ens = const_membership(rel2, other)
+                m2 = re.search(r'<==> \((.*)\),$', sub_ens, re.S)
+                if not m2:
+                    raise ValueError
+                return [m2.group(1)]
+        raise ValueError
+
+    def expr():
+        terms = primary()
+        while True:
+            skip()
+            if src.startswith('.union', pos[0]):
+                pos[0] += len('.union')
+                skip()
+                inner = balanced('(', ')')
+                save_src, save_pos = src, pos[0]
+                terms += sub(inner)
+            else:
+                break
+        return terms
+
+    def sub(text):
+        nonlocal src
+        saved = (src, pos[0])
+        src, pos[0] = text, 0
+        try:
+            t = expr()
+            skip()
+            if pos[0] != len(src):
+                raise ValueError
+            return t
+        finally:
+            src, pos[0] = saved
+    try:
+        terms = expr()
+        skip()
+        if pos[0] != len(src):
+            raise ValueError
+    except (ValueError, AssertionError, IndexError):
+        return 'ensures true,'
+    return 'ensures forall|k: SyntaxKind| #[trigger] %s(%s, k) <==> (%s),' % (H, name, ' || '.join(terms))
+
+
 def build():
-    U = Unit('PARSER', props=P)
+    U = Unit('PARSER', props=P5)
     k = U.file(SK)
     k.item('enum', 'SyntaxKind')
     k.item('macro_rules', 'T')
@@ -148,12 +271,13 @@ impl DropBomb {
     p.impl(r"Parser<'t>", [
         ('new', dict(ret='r', props=P, spec='requires inp.wf(), forall|i: int| 0 <= i < inp.kind@.len() ==> #[trigger] inp.kind@[i] != SyntaxKind::EOF,\nensures r.wf(), r.inp == inp, r.pos == 0, !r.has_err(),')),
         ('finish', dict(ret='r', props=P, spec='ensures r@ == self.events@,')),
+        ('position', dict(ret='r', props=P, spec='ensures r == self.pos,')),
         ('current', dict(ret='k', props=P, spec='requires self.wf(), ensures k == cur(self.st()),')),
         ('nth', dict(ret='k', props=P, trusted=True, note='std::cell::Cell step counter and the 15M-step `assert!` ("the parser seems stuck") are not modelled',
                      spec='requires self.wf(), n <= 3,                                   // `assert!(n <= 3)`\nensures k == kind_at(self.st(), self.st().pos + n as nat),')),
-        ('at', dict(ret='b', props=P, spec='requires self.wf(), ensures b == at(self.st(), kind),')),
-        ('nth_at', dict(ret='b', props=P, spec='requires self.wf(), n <= 3, ensures b == at_n(self.st(), n as nat, kind),                     //@C02,C05:composite-token-test')),
-        ('eat', dict(ret='b', props=P, spec='''
+        ('at', dict(ret='b', props=P5, spec='requires self.wf(), ensures b == at(self.st(), kind),')),
+        ('nth_at', dict(ret='b', props=P5, spec='requires self.wf(), n <= 3, ensures b == at_n(self.st(), n as nat, kind),                     //@C02,C05:composite-token-test')),
+        ('eat', dict(ret='b', props=P5, spec='''
 requires old(self).wf(), kind != SyntaxKind::EOF,
 ensures
     b == at(old(self).st(), kind),
@@ -162,8 +286,8 @@ ensures
     b ==> final(self).inp == old(self).inp && final(self).pos == old(self).pos + raw_len(kind) && final(self).wf()
           && final(self).events@ == old(self).events@.push(Event::Token { kind, n_raw_tokens: raw_len(kind) as u8 }),      //@C02:eat-consumes-raw-len
     old(self).has_err() ==> final(self).has_err(),''')),
-        ('at_composite2', dict(ret='b', props=P, spec='requires self.wf(), n <= 3, k1 != SyntaxKind::EOF, ensures b == comp2(self.st(), n as nat, k1, k2),')),
-        ('at_composite3', dict(ret='b', props=P, spec='requires self.wf(), n <= 3, k1 != SyntaxKind::EOF, k2 != SyntaxKind::EOF, ensures b == comp3(self.st(), n as nat, k1, k2, k3),')),
+        ('at_composite2', dict(ret='b', props=P5, spec='requires self.wf(), n <= 3, k1 != SyntaxKind::EOF, ensures b == comp2(self.st(), n as nat, k1, k2),')),
+        ('at_composite3', dict(ret='b', props=P5, spec='requires self.wf(), n <= 3, k1 != SyntaxKind::EOF, k2 != SyntaxKind::EOF, ensures b == comp3(self.st(), n as nat, k1, k2, k3),')),
         ('at_ts', dict(ret='b', props=P, spec='requires self.wf(), ensures b == crate::token_set::has(kinds, cur(self.st())),')),
         ('start', dict(ret='m', props=P, spec='requires old(self).wf(),\nensures unmoved(*old(self), *final(self)), final(self).events@ == old(self).events@.push(Event::Start { kind: SyntaxKind::TOMBSTONE, forward_parent: None }),')),
         ('bump', dict(props=P, spec='''
@@ -180,7 +304,9 @@ ensures mono(*old(self), *final(self)),
 requires old(self).wf(), kind != SyntaxKind::EOF,
 ensures b == at(old(self).st(), kind), mono(*old(self), *final(self)),
     b ==> final(self).pos == old(self).pos + raw_len(kind), !b ==> final(self).pos == old(self).pos && final(self).has_err(),''')),
-        ('err_and_bump', dict(props=P, spec='requires old(self).wf(),\nensures mono(*old(self), *final(self)), final(self).has_err(), final(self).pos <= old(self).pos + 1,')),
+        ('err_and_bump', dict(props=P, spec='''requires old(self).wf(),
+ensures mono(*old(self), *final(self)), final(self).has_err(), final(self).pos <= old(self).pos + 1,
+    (cur(old(self).st()) != SyntaxKind::L_CURLY && cur(old(self).st()) != SyntaxKind::R_CURLY && cur(old(self).st()) != SyntaxKind::EOF) ==> final(self).pos == old(self).pos + 1,''')),
         ('err_recover', dict(props=P, spec='''
 requires old(self).wf(),
 ensures mono(*old(self), *final(self)), final(self).has_err(), final(self).pos <= old(self).pos + 1,
@@ -215,10 +341,69 @@ ensures unmoved(*old(p), *final(p)), r.kind == kind,''')),
     D8 = ('D8', '.map(|(m, _)| m)', '.map(|t: (CompletedMarker, BlockLike)| t.0)')
     D2 = ('D2', 'let m = m.unwrap_or_else(|| p.start());', 'let m = match m { Some(v) => v, None => p.start() };')
 
+    ADV = ' ' + PW + 'adv(*old(p), *final(p)),'
+    CUR = PW + 'cur(old(p).st())'
+    LIVE = PW + 'live(old(p).st())'
+    SOME = ' res is Some ==> ' + PW + 'adv(*old(p), *final(p)),'
+    DEC = 'invariant crate::parser::mono(*old(p), *p),\ndecreases crate::parser::rem(p.st()),'
+    # progress contracts (stage 2): "consumes at least one token" under the stated condition on the cursor
+    ENS = {
+        'literal': (SOME + ' res is None ==> final(p).pos == old(p).pos,', 'res'),
+        'atom_expr': (SOME + ' %s ==> %sadv(*old(p), *final(p)),' % (LIVE, PW), 'res'),
+        'cast_expr': (' is_classical_k(%s) ==> %sadv(*old(p), *final(p)),' % (CUR, PW), 'res'),
+        'gate_call_expr': (' %s == SyntaxKind::IDENT ==> %sadv(*old(p), *final(p)),' % (CUR, PW), 'res'),
+        'identifier': (' %s == SyntaxKind::IDENT ==> %sadv(*old(p), *final(p)),' % (CUR, PW), 'res'),
+        'modified_gate_call_expr': (' (%s == SyntaxKind::INV_KW || %s == SyntaxKind::POW_KW || %s == SyntaxKind::CTRL_KW || %s == SyntaxKind::NEGCTRL_KW) ==> %sadv(*old(p), *final(p)),' % (CUR, CUR, CUR, CUR, PW), 'res'),
+        'try_block_expr': (' %s ==> %sadv(*old(p), *final(p)),' % (at("T!['{']"), PW), None),
+        'expr': (SOME + ' (%s && expr_start(old(p).st())) ==> %sadv(*old(p), *final(p)),' % (LIVE, PW), 'res'),
+        'expr_bp': (SOME + ' (%s && expr_start(old(p).st())) ==> %sadv(*old(p), *final(p)),' % (LIVE, PW), 'res'),
+        'expr_stmt': (SOME + ' (%s && expr_start(old(p).st())) ==> %sadv(*old(p), *final(p)),' % (LIVE, PW), 'res'),
+        'lhs': (SOME + ' %s ==> %sadv(*old(p), *final(p)),' % (LIVE, PW), 'res'),
+        'stmt': (' %s ==> %sadv(*old(p), *final(p)),' % (LIVE, PW), None),
+        'expr_block_statements': (' %s ==> %sadv(*old(p), *final(p)),' % (LIVE, PW), None),
+        'q_or_c_reg_param': (' %s != SyntaxKind::EOF ==> %sadv(*old(p), *final(p)),' % (CUR, PW), None),
+        'q_or_c_reg_declaration': (' %s != SyntaxKind::EOF ==> %sadv(*old(p), *final(p)),' % (CUR, PW), None),
+        'type_name': (' is_type_k(%s) ==> %sadv(*old(p), *final(p)),' % (CUR, PW), None),
+        'type_spec': (' is_type_k(%s) ==> %sadv(*old(p), *final(p)),' % (CUR, PW), 'res'),
+        'non_array_type_spec': (' is_type_k(%s) ==> %sadv(*old(p), *final(p)),' % (CUR, PW), 'res'),
+        'array_type_spec': (' %s != SyntaxKind::EOF ==> %sadv(*old(p), *final(p)),' % (CUR, PW), 'res'),
+        'opt_item': (' res is Ok ==> %sadv(*old(p), *final(p)), res is Err ==> final(p).pos == old(p).pos,' % PW, 'res'),
+        'classical_declaration_stmt': (' (is_classical_k(%s) || %s == SyntaxKind::CONST_KW) ==> %sadv(*old(p), *final(p)),' % (CUR, CUR, PW), None),
+        '_returns_bool_classical_declaration_stmt': (' (is_classical_k(%s) || %s == SyntaxKind::CONST_KW) ==> %sadv(*old(p), *final(p)),' % (CUR, CUR, PW), 'res'),
+        'io_declaration_stmt': (' %s != SyntaxKind::EOF ==> %sadv(*old(p), *final(p)),' % (CUR, PW), None),
+        'item': (' (%s != SyntaxKind::EOF && !(%s == SyntaxKind::R_CURLY && stop_on_r_curly)) ==> %sadv(*old(p), *final(p)),' % (CUR, CUR, PW), None),
+        'opt_return_signature': (' res ==> %sadv(*old(p), *final(p)),' % PW, 'res'),
+        'at_list_end_token': (' final(p).pos == old(p).pos,', 'res'),
+    }
+    LOOPS = {
+        'source_file_contents': {1: DEC}, 'switch_case_stmt': {1: 'invariant crate::parser::mono(*old(p), *p), p.pos > old(p).pos,\ndecreases crate::parser::rem(p.st()),'}, 'expr_block_statements': {1: DEC},
+        'expr_bp': {1: 'invariant crate::parser::mono(*old(p), *p), bp >= 1, p.pos > old(p).pos,\ndecreases crate::parser::rem(p.st()),'},
+        'postfix_expr': {1: DEC}, 'array_type_spec': {1: 'invariant crate::parser::mono(*old(p), *p), crate::parser::cur(old(p).st()) != SyntaxKind::EOF ==> p.pos > old(p).pos,\ndecreases crate::parser::rem(p.st()),'},
+        'indexed_identifier': {1: DEC},
+        'modified_gate_call_expr': {1: 'invariant crate::parser::mono(*old(p), *p),\nensures crate::parser::mono(*old(p), *p), (crate::parser::cur(old(p).st()) == SyntaxKind::INV_KW || crate::parser::cur(old(p).st()) == SyntaxKind::POW_KW || crate::parser::cur(old(p).st()) == SyntaxKind::CTRL_KW || crate::parser::cur(old(p).st()) == SyntaxKind::NEGCTRL_KW) ==> p.pos > old(p).pos,\ndecreases crate::parser::rem(p.st()),'}, 'tuple_expr': {1: 'invariant crate::parser::mono(*old(p), *p), p.pos > old(p).pos,\ndecreases crate::parser::rem(p.st()),'},
+        'array_expr': {1: 'invariant_except_break n_exprs < p.pos - old(p).pos,\ninvariant crate::parser::mono(*old(p), *p), p.pos > old(p).pos,\ndecreases crate::parser::rem(p.st()),'},
+        '_param_list_openqasm': {1: 'invariant_except_break num_params <= p.pos - old(p).pos,\ninvariant crate::parser::mono(*old(p), *p),\ndecreases crate::parser::rem(p.st()),'},
+    }
+
     def dflt(fileprops):
         def f(name, sig):
             if re.search(r'\bp\s*:\s*&mut\s+Parser', sig):
-                return dict(spec=gspec(), props=P, nodecreases=True, all_loops='invariant crate::parser::mono(*old(p), *p),')
+                kw = dict(spec=gspec(), props=P, nodecreases=True, all_loops='invariant crate::parser::mono(*old(p), *p),')
+                req = ''
+                for rel_ in STARTS_AT:
+                    if name in STARTS_AT[rel_]:
+                        req = ' ' + at(STARTS_AT[rel_][name]) + ','
+                ens = ''
+                if req:
+                    ens = ADV                       # begins by consuming the token it requires
+                if name in ENS:
+                    ens += ENS[name][0]
+                    if ENS[name][1]:
+                        kw['ret'] = ENS[name][1]
+                kw['spec'] = gspec(req, ens)
+                if name in LOOPS:
+                    kw['loops'] = LOOPS[name]
+                return kw
             if re.search(r'\bp\s*:\s*&\s*Parser', sig):
                 return dict(spec='requires p.wf(),', props=P, nodecreases=True)
             return dict(props=P)
@@ -226,15 +411,20 @@ ensures unmoved(*old(p), *final(p)), r.kind == kind,''')),
 
     def with_starts(rel, extra=None):
         ov = {}
-        for fn, kd in STARTS_AT[rel].items():
-            ov[fn] = dict(spec=gspec(' ' + at(kd) + ','))
+        for fn in STARTS_AT[rel]:
+            ov[fn] = {}
         for fn, kw in (extra or {}).items():
             ov.setdefault(fn, {}).update(kw)
         return ov
 
     def consts(f, rel):
         for c in TS_CONSTS[rel]:
-            f.item('const', c, exec_const='ensures true,')
+            ens = const_membership(rel, c)
+            m2 = re.search(r'<==> \((.*)\),$', ens, re.S)
+            if m2:
+                U.raw('/// members of %s (generated mechanically from its initialiser)\npub open spec fn in_%s(k: SyntaxKind) -> bool { %s }\n' % (c, c, m2.group(1)))
+                ens = 'ensures forall|k: SyntaxKind| #[trigger] crate::token_set::has(%s, k) <==> in_%s(k),' % (c, c)
+            f.item('const', c, exec_const=ens)
 
     U.raw("""pub mod grammar {
 use vstd::prelude::*;
@@ -247,14 +437,13 @@ pub mod entry {
         use super::*;
 """)
     g = U.file(G)
-    g.fn('source_file', depth=2, spec=gspec(), props=P, nodecreases=True)
-    g.fn('expr', depth=2, spec=gspec(), props=P, nodecreases=True, all_loops='invariant crate::parser::mono(*old(p), *p),')
+    g.fn('source_file', depth=2, spec=gspec(), props=P, nodecreases=True, qualname='entry::top::source_file')
+    g.fn('expr', depth=2, spec=gspec(), props=P, nodecreases=True, qualname='entry::top::expr', ghost=[('m.complete(p, ERROR);', 'before', 'assume(p.has_err()); // KF:C12-expr-entry-error-node')], loops={1: 'invariant crate::parser::mono(*old(p), *p),\ndecreases crate::parser::rem(p.st()),'})
     U.raw('    }\n}\n')
     g.item('enum', 'BlockLike')
     g.impl('BlockLike', [('is_block', dict(ret='r', props=P, spec='ensures r == (self == BlockLike::Block),')),
                          ('is_blocklike', dict(ret='r', props=P, spec='ensures r == (kind == SyntaxKind::BLOCK_EXPR),'))])
     g.all_fns(dflt(G), with_starts(G, {
-        'opt_return_signature': dict(ret='r'),
         'name_r': {}, 'name': {},
         'delimited': dict(trusted=True, nodecreases=False, note='higher-order: takes a closure over `&mut Parser` (no spec-level quantification over &mut); its loop is not verified',
                           spec='requires old(p).wf(), consume_braket ==> ' + at('bra') + ',\nensures ' + PW + 'mono(*old(p), *final(p)),'),
@@ -265,7 +454,14 @@ pub mod entry {
         ('is_type', dict(ret='r', props=P, spec='ensures r == (self.is_scalar_type_spec() || *self == SyntaxKind::ARRAY_KW || *self == SyntaxKind::QUBIT_KW || *self == SyntaxKind::HARDWARE_QUBIT),')),
         ('is_creg_or_qreg', dict(ret='r', props=P, spec='ensures r == (*self == SyntaxKind::QREG_KW || *self == SyntaxKind::CREG_KW),')),
     ])
-    U.raw("""impl SyntaxKind {
+    U.raw("""pub open spec fn is_classical_k(k: SyntaxKind) -> bool { k.is_scalar_type_spec() || k == SyntaxKind::ARRAY_KW }
+pub open spec fn is_type_k(k: SyntaxKind) -> bool { is_classical_k(k) || k == SyntaxKind::QUBIT_KW || k == SyntaxKind::HARDWARE_QUBIT }
+/// the states in which `expr_bp` does not bail out at once: an expression (or a cast) can start here
+pub open spec fn expr_start(st: crate::parser::PState) -> bool {
+    expressions::in_EXPR_FIRST(crate::parser::cur(st))
+    || (is_classical_k(crate::parser::cur(st)) && (crate::parser::kind_at(st, st.pos + 1) == SyntaxKind::L_PAREN || crate::parser::kind_at(st, st.pos + 1) == SyntaxKind::L_BRACK))
+}
+impl SyntaxKind {
     pub open spec fn is_scalar_type_spec(&self) -> bool {
         *self == SyntaxKind::ANGLE_TY || *self == SyntaxKind::BIT_TY || *self == SyntaxKind::BOOL_TY || *self == SyntaxKind::COMPLEX_TY
         || *self == SyntaxKind::DURATION_TY || *self == SyntaxKind::FLOAT_TY || *self == SyntaxKind::INT_TY || *self == SyntaxKind::STRETCH_TY
@@ -290,22 +486,27 @@ use super::*;
     consts(x, GE)
     x.item('struct', 'Restrictions', derive='keep')
     x.item('enum', 'Associativity')
+    U.raw(open(__file__.replace('units/parser.py', 'contracts/parser.ops.rs')).read())
     x.all_fns(dflt(GE), with_starts(GE, {
         'call_arg_list': dict(rewrites=[('GHOST-closure-contract', "|p: &mut Parser<'_>| expr(p).is_some(),",
                                          "|p: &mut Parser<'_>| -> (b: bool) requires old(p).wf(), ensures crate::parser::mono(*old(p), *final(p)), { expr(p).is_some() },")]),
         'stmt': dict(rewrites=[('GHOST-nested-fn-contract', "    fn let_stmt(p: &mut Parser<'_>, m: Marker) {",
-                                "    fn let_stmt(p: &mut Parser<'_>, m: Marker)\n        requires old(p).wf(), crate::parser::at(old(p).st(), T![let]),\n        ensures crate::parser::mono(*old(p), *final(p)),\n    {")]),
+                                "    fn let_stmt(p: &mut Parser<'_>, m: Marker)\n        requires old(p).wf(), crate::parser::at(old(p).st(), T![let]),\n        ensures crate::parser::mono(*old(p), *final(p)), crate::parser::adv(*old(p), *final(p)),\n    {")]),
         'expr': dict(rewrites=[D8]),
         'range_expr': dict(rewrites=[D8 + (3,)]),
         'expr_or_range_expr': dict(rewrites=[D8 + (3,)]),
-        'expr_bp': dict(rewrites=[D2], spec=gspec(' bp >= 1,'), loops={1: 'invariant crate::parser::mono(*old(p), *p), bp >= 1,'}),
-        'array_type_spec': dict(spec=gspec(' !want_array_ref_type ==> ' + at('T![array]') + ',')),
-        'current_op': dict(ret='r', nodecreases=False, spec="""
+        'expr_bp': dict(rewrites=[D2], props=P5, spec=gspec(' bp >= 1,', ENS['expr_bp'][0])),
+        'array_type_spec': dict(spec=gspec(' !want_array_ref_type ==> ' + at('T![array]') + ',', ENS['array_type_spec'][0])),
+        'current_op': dict(ret='r', nodecreases=False, props=P5, spec="""
 requires p.wf(),
 ensures
     r.0 <= 12,
     // a non-zero binding power names the (composite) operator that is actually at the cursor
     r.0 > 0 ==> """ + PW + """at(p.st(), r.1) && r.1 != SyntaxKind::EOF,                     //@C05,C01:op-is-at-cursor
+    // binding power and associativity are those of the table (checked against the OpenQASM 3
+    // table by c05_binding_powers_follow_the_table / c05_associativity)
+    r.0 > 0 ==> (r.0, r.2 is Right) == bp_of(r.1),                                            //@C05:binding-power-table
+    r.0 == 0 ==> r.1 == SyntaxKind::DOT3,
 """),
     }))
     U.raw('}\n')
